@@ -41,8 +41,15 @@ def run(ctx):
     _sinks(ctx)
 
 
-def serializer_config(ctx):
-    """R1: the one serializer is json.dumps(obj, <published configuration>).encode('utf-8')"""
+# options on which "a function of the JSON value alone, different values never share it" rests; the
+# others (indent, ensure_ascii, separators) only fix the published byte format
+INJECTIVITY = ("sort_keys", "skipkeys", "cls", "default")
+
+
+def serializer_config(ctx, published=True):
+    """R1: the one serializer is json.dumps(obj, <published configuration>).encode('utf-8');
+    published=False: only what determinism and injectivity need (for the properties that do not
+    speak about the byte format itself)"""
     eng = ctx.eng
     sm = eng.walk("common.canonserialize")
     site = fn_site(eng, sm)
@@ -62,6 +69,8 @@ def serializer_config(ctx):
     if dumps_call is not None:
         eff = effective_kwargs(json.dumps, ["obj"], dumps_call[2], dumps_call[3])
         for k, want in sorted(WANT.items(), key=str):
+            if not published and k not in INJECTIVITY:
+                continue
             got = eff.get(k, ("default", None))
             val = got[1] if isinstance(got, tuple) and got[0] == "default" else (got[2] if is_const(got) else ("?", show(got)))
             ok = val == want and type(val) is type(want)
@@ -75,10 +84,15 @@ def serializer_config(ctx):
         else:
             sv = lit_const_values(sep) if is_lit(sep) else None
             sep_ok, sep_v = sv == [",", ": "], sv
-        ctx.ob("R1", "dumps-config|separators", site.loc(), "effective separators %r %s" % (sep_v, "= (',', ': ') with indentation" if sep_ok else "differ from (',', ': ')"), sep_ok)
+        if published:
+            ctx.ob("R1", "dumps-config|separators", site.loc(), "effective separators %r %s" % (sep_v, "= (',', ': ') with indentation" if sep_ok else "differ from (',', ': ')"), sep_ok)
+        else:
+            # any separators keep the rendering unambiguous as long as neither is empty
+            amb = sep_v is not None and (not isinstance(sep_v, (list, tuple)) or len(sep_v) != 2 or not all(isinstance(x, str) and x.strip() for x in sep_v))
+            ctx.ob("R1", "dumps-config|separators", site.loc(), "effective separators %r %s" % (sep_v, "keep items and keys apart" if not amb else "may run items or keys together"), not amb)
         extra = [n for n, _v in dumps_call[3] if n not in WANT and n != "separators"]
         ctx.ob("R1", "dumps-config|no-other-keywords", site.loc(), "no other json.dumps keyword is given" if not extra else "unexpected json.dumps keywords: %s" % extra, not extra)
-        ctx.floor("R1.keywords", 8)
+        ctx.floor("R1.keywords", 8 if published else 4)
     return sm, site
 
 
